@@ -36,13 +36,65 @@ func (o hobj) observe() J {
 	return observe(o.item)
 }
 
+// cyclic: does a list (reachable from this item) contain itself?  No constructor makes such a thing; an operation that
+// writes into an existing list can. Every observer would recurse for ever on it (Go's fatal stack overflow), so it is
+// looked for first, by pointer identity, and reported as the object's state.
+func cyclic(it ast.ItemNode) bool {
+	const grey, black = 1, 2
+	colour := map[*ast.ListNode]int{}
+	type frame struct {
+		l    *ast.ListNode
+		kids []ast.ItemNode
+		next int
+	}
+	root, ok := it.(*ast.ListNode)
+	if !ok || root == nil {
+		return false
+	}
+	stack := []frame{{root, ast.VerifChildren(root), 0}}
+	colour[root] = grey
+	for len(stack) > 0 {
+		f := &stack[len(stack)-1]
+		if f.next == len(f.kids) {
+			colour[f.l] = black
+			stack = stack[:len(stack)-1]
+			continue
+		}
+		k := f.kids[f.next]
+		f.next++
+		if l, ok := k.(*ast.ListNode); ok && l != nil {
+			switch colour[l] {
+			case grey:
+				return true
+			case 0:
+				colour[l] = grey
+				stack = append(stack, frame{l, ast.VerifChildren(l), 0})
+			}
+		}
+	}
+	return false
+}
+
+func (o hobj) cyclic() bool {
+	if o.msg != nil {
+		return cyclic(ast.VerifDataItem(o.msg))
+	}
+	return o.item != nil && cyclic(o.item)
+}
+
 func (o hobj) digest() string {
+	if o.cyclic() {
+		return "a list that contains itself"
+	}
 	b, _ := json.Marshal(o.observe())
 	h := sha1.Sum(b)
 	return hex.EncodeToString(h[:8])
 }
 
 func (o hobj) abs() J {
+	if o.cyclic() {
+		return J{"kind": "item", "abs": J{"f": "none"}, "cycle": true}
+	}
 	if o.ctrl != nil {
 		h, _ := ast.VerifControlHeader(o.ctrl)
 		return J{"kind": "ctrl", "abs": J{"hdr": bytesJ(h)}}
